@@ -26,6 +26,18 @@ Expression language (nested JSON lists, evaluated by ``ev`` against the *current
   ["rename", X, name]
 Frame-level steps: project getcol filter assign frame_arith frame_cmp astype fillna where isin clip apply_rows
 rename series sfilter other (arithmetic / assign / mask / where with a second, differently partitioned frame).
+
+Extended operation table (only with ``info["ext"]``; without it the generator consumes the random stream exactly as
+before, so C42's reuse is unchanged).  Additional nodes / fields:
+  ["map", X, {"func"|"dict"|"series": ..., "dask": bool}, meta_dtype, na_action]   (None in a key list = the NaN key)
+  ["apply", X, {"func": name}, meta_dtype, args, kwargs]  ["round", X, n]  ["replace", X, to, value|["nov"], regex]
+  ["clip", X, lo|EXPR, hi|EXPR, axis]  ["between", X, lo|EXPR, hi|EXPR, inclusive]  ["isin", X, values, set|ndarray|series]
+  ["strcat", X, OTHER, sep, na_rep]  ["catm", method, X, args, kwargs]
+steps: frame_map round abs replace fseries locsel; fillna {"axis"} / {"value_from": {col: source col}}; clip {"axis",
+"lower_expr", "upper_expr", "at"} and list bounds; rename {"callable"}; isin {"values_dict"}; frame_arith / frame_cmp
+{"fill_value", "axis"} and rhs kinds "pdseries" / "list"; apply_rows {"kwargs"}.  kind ``mstr`` = text with missing values
+made by a user function (only isna / notna / fillna / == are generated on it).  ``description["features"]`` lists the
+extended step kinds a pipeline uses, ``description["unordered"]`` says that an operand was aligned by an index shuffle.
 """
 from __future__ import annotations
 
@@ -74,8 +86,26 @@ def f_first(v):
     return v[:1]
 
 
+def f_fmt(v):
+    """NOT NaN-propagating: a missing value that reaches the function becomes the text "<nan>" / "<<NA>>"."""
+    return "<%s>" % (v,)
+
+
+def f_slen(v):
+    """NOT NaN-propagating, float result: number of characters of the printed value."""
+    return float(len(str(v)))
+
+
+def f_addk(v, k, j=0):
+    return v + k + j
+
+
 def r_add(row, x, y):
     return row[x] + row[y]
+
+
+def r_addk(row, x, y, k=0):
+    return row[x] + row[y] + k
 
 
 def r_gt(row, x, y):
@@ -86,7 +116,8 @@ def r_lab(row, x, y):
     return "%s:%s" % (row[x], row[y])
 
 
-FUNCS = {f.__name__: f for f in (f_inc, f_sq, f_half, f_pos, f_tag, f_len, f_first, r_add, r_gt, r_lab)}
+FUNCS = {f.__name__: f for f in (f_inc, f_sq, f_half, f_pos, f_tag, f_len, f_first, r_add, r_gt, r_lab,
+                                 f_fmt, f_slen, f_addk, r_addk)}
 # func -> (input kinds, result kind given input kind)
 SFUNCS = {"f_inc": (("int", "float"), None), "f_sq": (("int", "float"), None), "f_half": (("int", "float"), "float"),
           "f_pos": (("int", "float"), "bool"), "f_tag": (("str",), "str"), "f_len": (("str",), "int"),
@@ -114,14 +145,24 @@ def kind_of_dtype(dt):
     return "obj"
 
 
-def info_for(pdf, other=None, known=True, same_rows=True):
-    """Schema info of a pandas frame made by vf.gen.frames.rand_frame."""
+def info_for(pdf, other=None, known=True, same_rows=True, ext=False, orig=None, other_unknown=False):
+    """Schema info of a pandas frame made by vf.gen.frames.rand_frame.  ``ext`` switches the extended operation table
+    on (keyword-argument variants, map with na_action, round/replace, loc projections ...); ``orig`` maps the column
+    names of ``pdf`` to the rand_frame names they were renamed from (name pool with substrings of each other);
+    ``other_unknown``: the second operand is NOT co-partitioned by known divisions (dask aligns it by an index shuffle,
+    which defines the rows but no row order)."""
+    orig = dict(orig or {})
     cols = {str(c): kind_of_dtype(pdf.dtypes[c]) for c in pdf.columns}
-    info = {"cols": cols, "pristine": [c for c in cols if c in DOMAIN], "unique_index": bool(pdf.index.is_unique),
-            "known": bool(known), "other": None}
+    info = {"cols": cols, "pristine": [c for c in cols if orig.get(c, c) in DOMAIN],
+            "unique_index": bool(pdf.index.is_unique), "known": bool(known), "other": None}
+    if ext:
+        info["ext"] = True
+        info["orig"] = orig
     if other is not None:
         info["other"] = {"cols": {str(c): kind_of_dtype(other.dtypes[c]) for c in other.columns},
                          "same_rows": bool(same_rows)}
+        if other_unknown:
+            info["other"]["unknown"] = True
     return info
 
 
@@ -136,7 +177,16 @@ def _norm_info(x):
     x.setdefault("unique_index", True)
     x.setdefault("known", True)
     x.setdefault("other", None)
+    x.setdefault("ext", False)
+    x.setdefault("orig", {})
     return x
+
+
+def _ren_suffix(c):
+    return c + "_z"
+
+
+_RENAMERS = {"upper": str.upper, "title": str.title, "suffix": _ren_suffix}
 
 
 # --------------------------------------------------------------------------- generator
@@ -160,6 +210,10 @@ class _G:
         self.uses_other = False
         self.steps = []
         self.final_only = False
+        self.ext = bool(info.get("ext"))          # extended operation table (off: the generator is bit-for-bit the old one)
+        self.orig = dict(info.get("orig") or {})  # column name -> rand_frame name it was renamed from
+        self.features = set()                     # extended step kinds / keyword variants used by this pipeline
+        self.unordered = False                    # a step aligns operands by an index shuffle (no row order defined)
 
     # ---- helpers
     def pick(self, seq):
@@ -190,6 +244,10 @@ class _G:
                 return ["col", c], cols[c]
             return self.num_from_other(cols, depth)
         sub = lambda: self.num(cols, depth + 1, leaf)  # noqa: E731
+        if self.ext and r.random() < 0.4:
+            got = self.x_num(cols, depth, leaf, sub)
+            if got is not None:
+                return got
         if choice < 0.45:   # binary with scalar (either side) or series
             op = self.pick(["+", "-", "*", "/", "//", "%", "**"])
             x, kx = sub()
@@ -316,6 +374,10 @@ class _G:
         else:
             for c, k in cols.items():
                 kinds.setdefault(k, []).append(c)
+        if self.ext and r.random() < 0.3:
+            got = self.x_bool(cols, depth, leaf, kinds)
+            if got is not None:
+                return got
         avail = [k for k in ("int", "float", "Int", "str", "bool", "dt", "cat") if k in kinds]
         if not avail:
             if leaf is not None:
@@ -404,6 +466,10 @@ class _G:
         w = r.random()
         if depth < 1 and w < 0.2:
             x, _ = self.string(cols, depth + 1, leaf)
+        if self.ext and r.random() < 0.45:
+            got = self.x_string(cols, depth, leaf, x)
+            if got is not None:
+                return got
         w = r.random()
         if w < 0.12:
             return ["str", "upper", x, [], {}], "str"
@@ -446,9 +512,14 @@ class _G:
             k = leaf[1]
         else:
             ks = sorted(set(cols.values()) - {"obj"})
-            weights = {"int": 5, "float": 5, "Int": 2, "str": 4, "bool": 3, "dt": 3, "cat": 3, "ucat": 3, "boolean": 1}
+            weights = {"int": 5, "float": 5, "Int": 2, "str": 4, "bool": 3, "dt": 3, "cat": 3, "ucat": 3, "boolean": 1,
+                       "mstr": 3}
             k = self.pick([q for q in ks for _ in range(weights.get(q, 1))]) if ks else "int"
         w = r.random()
+        if self.ext:
+            got = self.x_any(cols, leaf, k)
+            if got is not None:
+                return got
         if k in NUM:
             if w < 0.75:
                 e, kk = self.num(cols, 0, leaf)
@@ -551,10 +622,11 @@ class _G:
         return ["un", "notna", x], "bool", "bool"
 
     def _prist_name(self, x, leaf):
+        """rand_frame name ("a", "b", "k") of a column that still holds its rand_frame domain, else None"""
         if leaf is not None:
-            return self.sprist if x == ["self"] else None
+            return self.orig.get(self.sprist, self.sprist) if x == ["self"] else None
         if x[0] == "col" and x[1] in self.prist:
-            return x[1]
+            return self.orig.get(x[1], x[1])
         return None
 
     # ---- frame-level steps
@@ -605,6 +677,12 @@ class _G:
         table = [("project", 10), ("getcol", 5), ("filter", 16), ("assign", 18), ("frame_arith", 8), ("frame_cmp", 4),
                  ("astype", 7), ("fillna", 6), ("where", 7), ("isin", 3), ("clip", 4), ("apply_rows", 4),
                  ("rename", 6), ("other", 32 if self.other else 0)]
+        if self.ext and self.steps and self.r.random() < 0.6 and self.s_x_after_mapping() is not None:
+            return
+        if self.ext:
+            table += [("x_mapna", 12), ("x_frame_map", 8), ("x_round", 4), ("x_replace", 5), ("x_abs", 2), ("x_fillna", 6),
+                      ("x_clip", 5), ("x_rename", 3), ("x_loc", 6), ("x_arith", 9), ("x_cmp", 3), ("x_isin", 3),
+                      ("x_apply_rows", 2), ("x_series_kw", 9), ("astype", 4)]
         pool = [k for k, w in table for _ in range(w)]
         for _ in range(20):
             op = self.pick(pool)
@@ -914,6 +992,16 @@ class _G:
         w = r.random()
         self.uses_other = True
         tag = "" if identical else ":partial-overlap"
+        unknown = bool(o.get("unknown"))
+        if unknown:
+            # operands that are not co-partitioned by KNOWN divisions: dask aligns them by an index shuffle, which
+            # defines the rows of the result but no row order -> the whole pipeline is compared as a row multiset
+            if not self.unique:
+                return None
+            tag += ":unknown-divisions"
+            self.unordered = True
+            self.feat("other:unknown-divisions")
+            w = w * 0.5
         if w < 0.3:   # series (op) series -> series
             c, oc = self.pick(mine), self.pick(theirs)
             op = self.pick(["+", "-", "*", "/"])
@@ -922,7 +1010,7 @@ class _G:
             if st["style"] == "method" and r.random() < 0.6:
                 st["fill_value"] = r.choice([0, 1])
             kind = "float" if not identical else self._numkind(op, self.cols[c], ocols[oc])
-            return self._commit_series(st, "other:series-arith" + tag, kind)
+            return self._commit_series(st, "other:series-arith" + tag, kind, filt=unknown)
         if w < 0.5:   # frame (op) frame
             sel = self.numcols()
             osel = r.sample(theirs, r.randint(1, min(3, len(theirs))))
@@ -933,7 +1021,7 @@ class _G:
             st = {"op": "other", "mode": "frame_bin", "ocols": osel, "binop": op, "style": self.pick(["operator", "method"])}
             if st["style"] == "method" and r.random() < 0.6:
                 st["fill_value"] = r.choice([0, 1])
-            return self._commit(st, out, "other:frame-arith" + tag)
+            return self._commit(st, out, "other:frame-arith" + tag, filt=unknown)
         if w < 0.7:   # assign a column of the other frame (left-aligned on the index)
             oc = self.pick(list(ocols))
             if ocols[oc] == "obj":
@@ -953,6 +1041,740 @@ class _G:
             st = {"op": "other", "mode": "where", "which": self.pick(["where", "mask"]), "col": c, "ocol": oc, "cond": cond}
             return self._commit_series(st, "other:where-other", self._numkind("+", self.cols[c], ocols[oc]))
         return None
+
+    # =========================================================================== extended operation table (ext only)
+    # Every step kind below passes a NON-default keyword argument (or an argument form the base table never uses)
+    # whose effect is visible in the generated data; each one registers a feature name (-> counter with a floor).
+    def feat(self, name):
+        self.features.add(name)
+
+    def _missing_src(self, cols, leaf, kinds=("float", "str")):
+        """-> (expr, kind) of a series expression holding missing values (column c / m of rand_frame, or a
+        where/mask without `other`), or None"""
+        r = self.r
+        if leaf is not None:
+            x, k = leaf
+            if k not in kinds:
+                return None
+        else:
+            cs = self.by_kind(cols, *kinds)
+            if not cs:
+                return None
+            c = self.pick(cs)
+            x, k = ["col", c], cols[c]
+        if k == "str" or (k == "float" and r.random() < 0.5):
+            cond = self._simple_pred(cols, leaf)
+            x = [self.pick(["where", "mask"]), x, cond, ["none"]]
+        return x, k
+
+    def _simple_pred(self, cols, leaf):
+        """a plain comparison (no recursion into the extended table)"""
+        r = self.r
+        if leaf is not None:
+            x, k = leaf
+        else:
+            cs = self.by_kind(cols, "int", "float", "str", "bool")
+            if not cs:
+                return ["un", "notna", ["col", self.pick(list(cols))]]
+            c = self.pick(cs)
+            x, k = ["col", c], cols[c]
+        if k in ("int", "float"):
+            return ["cmp", self.pick(["<", ">", ">=", "!="]), x, ["lit", r.choice([0, 1, 2])]]
+        if k == "str":
+            return ["cmp", self.pick(["==", "!="]), x, ["lit", self.pick(DOMAIN["b"])]]
+        if k == "bool":
+            return x
+        return ["un", "notna", x]
+
+    def mapna_expr(self, cols, leaf=None, want=None):
+        """Series.map(mapper, na_action=None|"ignore") on a series WITH missing values -> (expr, kind) | None.
+        mapper forms: function mapping NaN to a non-missing value (f_fmt -> text, f_slen -> float), NaN-propagating
+        function (f_inc), dict and Series mappers (pandas Series, or a one-partition dask Series) with and without a
+        NaN key.  want="float": only mappers with float results."""
+        r = self.r
+        src = self._missing_src(cols, leaf)
+        if src is None:
+            return None
+        x, k = src
+        forms = {"float": ["fmt", "fmt", "slen", "inc", "dict", "series", "series"],
+                 "str": ["fmt", "fmt", "slen", "dict", "series"]}[k]
+        if want == "float":
+            forms = [f for f in forms if f in ("slen", "inc") or (k == "float" and f in ("dict", "series"))]
+        form = self.pick(forms)
+        na = self.pick([None, "ignore", "ignore"])
+        self.uses_meta = True
+        if form == "fmt":
+            how, out, dt = {"func": "f_fmt"}, "mstr", "str"
+        elif form == "slen":
+            how, out, dt = {"func": "f_slen"}, "float", "float64"
+        elif form == "inc":
+            how, out, dt = {"func": "f_inc"}, "float", "float64"
+        else:
+            if k == "float":
+                keys = r.sample([-3.0, -2.0, -1.0, 0.0, 1.0, 2.0, 3.0, 0.5], r.randint(2, 5))
+                pairs = [[q, float(10 + i)] for i, q in enumerate(keys)]
+                if r.random() < 0.7:
+                    pairs.append([None, -1.0])        # None = the NaN key
+                out, dt = "float", "float64"
+            else:
+                keys = r.sample(DOMAIN["b"], r.randint(2, 4))
+                pairs = [[q, q.upper() + "!"] for q in keys]
+                if r.random() < 0.7:
+                    pairs.append([None, "?"])
+                out, dt = "mstr", "str"
+            # a dask Series mapper is gathered into one partition and broadcast; only with known divisions (with
+            # unknown divisions every later combination with the original frame is an index shuffle)
+            as_dask = bool(form == "series" and r.random() < 0.4 and self.known)
+            if as_dask and k == "str" and pairs[-1][0] is None:
+                pairs.pop()      # from_pandas refuses a non-numeric index holding nulls (documented NotImplementedError)
+            how = {"dict": pairs} if form == "dict" else {"series": pairs, "dask": as_dask}
+        self.feat("map:na_action=ignore" if na == "ignore" else "map:on-missing-values")
+        if na == "ignore" and form in ("fmt", "slen"):
+            self.feat("map:na_action=ignore:nan-to-value-function")
+        if form in ("dict", "series"):
+            self.feat("map:%s-mapper" % form)
+        return ["map", x, how, dt, na], out
+
+    def x_num(self, cols, depth, leaf, sub):
+        r = self.r
+        w = r.random()
+        if w < 0.15:
+            return self.mapna_expr(cols, leaf, want="float") if depth < 2 else None
+        x, kx = sub()
+        if w < 0.26:    # round(decimals)
+            self.feat("round:series")
+            return ["round", x, self.pick([0, 1, 1, -1])], kx
+        if kx not in ("int", "float"):
+            return None
+        if w < 0.40:    # replace
+            isint = kx == "int"
+            keys = [0, 1, 2, 3, -1] if isint else [0.0, 1.0, 2.0, -1.0, 3.0]
+            vals = [100, -7, 50] if isint else [100.5, -7.25, 50.0]
+            form = self.pick(["scalar", "list", "lists", "dict"])
+            self.feat("replace:series")
+            if form == "scalar":
+                k = None if (not isint and r.random() < 0.35) else self.pick(keys)
+                return ["replace", x, k, self.pick(vals), False], kx
+            ks = r.sample(keys, 2)
+            if form == "list":
+                return ["replace", x, ks, self.pick(vals), False], kx
+            if form == "lists":
+                return ["replace", x, ks, r.sample(vals, 2), False], kx
+            return ["replace", x, {"dict": [[a, b] for a, b in zip(ks, r.sample(vals, 2))]}, ["nov"], False], kx
+        if w < 0.56:    # fillna(value=<series>)
+            y, ky = sub()
+            if ky not in ("int", "float"):
+                y, ky = self.num(cols, 2, leaf)
+            if ky not in ("int", "float"):
+                return None
+            self.feat("fillna:series-value")
+            return ["fillna", x, y], (kx if kx == "int" else "float")
+        if w < 0.68:    # clip with series bounds / axis=
+            if kx == "int":
+                x = ["astype", x, "float64"]
+            v = r.random()
+            if v < 0.3:
+                lo, hi = sorted([r.choice([-2, -1, 0]), r.choice([1, 2])])
+                self.feat("clip:axis")
+                return ["clip", x, lo, hi, self.pick([0, "index"])], "float"
+            y, ky = sub()
+            if ky not in ("int", "float"):
+                return None
+            self.feat("clip:series-bounds")
+            ax = self.pick([None, 0])
+            if v < 0.55:
+                return ["clip", x, y, None, ax], "float"
+            if v < 0.8:
+                return ["clip", x, None, y, ax], "float"
+            return ["clip", x, y, ["bin", "+", y, ["lit", 1]], ax], "float"
+        if w < 0.83:    # arithmetic method with a scalar and fill_value=
+            op = self.pick(["+", "-", "*", "/", "//", "%"])
+            names = {"+": "add", "-": "sub", "*": "mul", "/": "truediv", "//": "floordiv", "%": "mod"}
+            y = ["lit", r.choice([1, 2, 3, 0.5, -2])]
+            rev = r.random() < 0.3
+            fv = r.choice([0, 1, 2.5])
+            if rev and fv == 0 and op in ("/", "//", "%"):
+                fv = 1
+            self.feat("arith:series-scalar-fill_value")
+            ky = "int" if isinstance(y[1], int) else "float"
+            kf = "int" if isinstance(fv, int) else "float"
+            kind = self._numkind(op, kx, ky)
+            if kx == "float":
+                kind = self._numkind(op, kind, kf)
+            return ["meth", ("r" if rev else "") + names[op], x, y, {"fill_value": fv}], kind
+        # Series.apply(f, args=, **kwargs)
+        self.uses_meta = True
+        self.feat("apply:args-kwargs")
+        if r.random() < 0.5:
+            return ["apply", x, {"func": "f_addk"}, DTYPE_OF[kx], [r.choice([1, 2, 5])], {"j": r.choice([0, 10])}], kx
+        return ["apply", x, {"func": "f_addk"}, DTYPE_OF[kx], [], {"k": r.choice([1, 2, 5])}], kx
+
+    def x_bool(self, cols, depth, leaf, kinds):
+        r = self.r
+
+        def one(*ks):
+            if leaf is not None:
+                return leaf[0] if leaf[1] in ks else None
+            cs = [c for k in ks for c in kinds.get(k, [])]
+            return ["col", self.pick(cs)] if cs else None
+        w = r.random()
+        if w < 0.25:    # comparison method with fill_value=
+            x = one("float") or one("int")
+            if x is None:
+                return None
+            nm = self.pick(["lt", "le", "gt", "ge", "eq", "ne"])
+            y = None
+            if leaf is None and r.random() < 0.5:
+                others = [c for c in kinds.get("float", []) + kinds.get("int", []) if ["col", c] != x]
+                if others:
+                    y = ["col", self.pick(others)]
+            if y is None:
+                y = ["lit", r.choice([0, 1, -1, 0.5])]
+            self.feat("cmp:series-fill_value")
+            return ["meth", nm, x, y, {"fill_value": r.choice([0, 1, -5])}], "bool"
+        if w < 0.45:    # isin(values) as set / ndarray / pandas Series
+            x = one("int", "float")
+            if x is None:
+                return None
+            self.feat("isin:non-list-values")
+            vals = sorted(r.sample([-1, 0, 1, 2, 3, 4], r.randint(1, 3)))
+            return ["isin", x, vals, self.pick(["set", "ndarray", "series"])], "bool"
+        if w < 0.60:    # between with series bounds
+            x = one("int", "float")
+            if x is None:
+                return None
+            self.feat("between:series-bounds")
+            d = r.choice([1, 2])
+            if leaf is None:
+                cs = kinds.get("float", []) + kinds.get("int", [])
+                base = ["col", self.pick(cs)]
+            else:
+                base = ["bin", "*", x, ["lit", 0.5]]
+            return ["between", x, ["bin", "-", base, ["lit", d]], ["bin", "+", base, ["lit", d]],
+                    self.pick(["both", "neither", "left", "right"])], "bool"
+        if w < 0.85:    # str predicates with keyword arguments
+            x = one("str")
+            if x is None:
+                return None
+            self.feat("str:kwargs")
+            v = r.random()
+            if v < 0.2:
+                return ["str", "contains", x, [self.pick(["X", "Y", "W"])], {"case": False}], "bool"
+            if v < 0.35:
+                return ["str", "contains", x, [self.pick(["x|y", "x", "^x"])], {"regex": False}], "bool"
+            if depth >= 2:
+                return ["str", "contains", x, [self.pick(["X", "y"])], {"case": False}], "bool"
+            src = self._missing_src(cols, leaf, kinds=("str",))
+            if src is None:
+                return None
+            self.feat("str:na=")
+            meth = self.pick(["contains", "startswith", "endswith"])
+            return ["str", meth, src[0], [self.pick(["x", "y", "w"])], {"na": bool(r.getrandbits(1))}], "bool"
+        x = one("mstr")
+        if x is None:
+            return None
+        if r.random() < 0.7:
+            return ["un", self.pick(["isna", "notna"]), x], "bool"
+        return ["cmp", self.pick(["==", "!="]), x, ["lit", self.pick(["<nan>", "<1.0>", "X!", "?"])]], "bool"
+
+    def x_string(self, cols, depth, leaf, x):
+        r = self.r
+        w = r.random()
+        if w >= 0.65 and depth >= 2:
+            w = r.random() * 0.65
+        if w < 0.65:
+            self.feat("str:kwargs")
+        if w < 0.12:
+            return ["str", self.pick(["strip", "lstrip", "rstrip"]), x, [self.pick(["x", "xy", "w"])], {}], "str"
+        if w < 0.24:
+            return ["str", "pad", x, [r.randint(2, 4)], {"side": self.pick(["left", "right", "both"]),
+                                                         "fillchar": self.pick(["*", "0"])}], "str"
+        if w < 0.34:
+            return ["str", self.pick(["center", "ljust", "rjust"]), x, [r.randint(2, 4), self.pick(["*", "."])], {}], "str"
+        if w < 0.45:
+            y = ["strcat", x, x, "-"]
+            return ["str", "slice", y, self.pick([[0, None, 2], [None, None, -1], [1, None, 2]]), {}], "str"
+        if w < 0.55:
+            y = ["strcat", x, x, ""]
+            return ["str", "replace", y, [self.pick(["x", "y", "w"]), "Q"], {"n": 1, "regex": False}], "str"
+        if w < 0.65:
+            return ["str", "replace", x, [self.pick(["X", "Y", "W"]), "q"], {"case": False, "regex": True}], "str"
+        src = self._missing_src(cols, leaf, kinds=("str",))
+        if src is None:
+            return None
+        self.feat("str:cat-na_rep")
+        return ["strcat", x, src[0], self.pick(["-", "_"]), self.pick(["?", ""])], "str"
+
+    def x_any(self, cols, leaf, k):
+        """-> (expr, kind, klass) | None   (extended alternatives for assign / series steps)"""
+        r = self.r
+        x = leaf[0] if leaf is not None else None
+        if k == "mstr":
+            if x is None:
+                x = ["col", self.pick(self.by_kind(cols, "mstr"))]
+            w = r.random()
+            if w < 0.55:
+                return ["un", self.pick(["isna", "notna"]), x], "bool", "bool"
+            if w < 0.8:
+                return ["fillna", x, ["lit", "?"]], "obj", "fillna"
+            return ["cmp", self.pick(["==", "!="]), x, ["lit", self.pick(["<nan>", "<1.0>", "X!", "?"])]], "bool", "cmp"
+        if k in ("float", "str") and r.random() < 0.15:
+            got = self.mapna_expr(cols, leaf)
+            if got is not None:
+                return got[0], got[1], "map-na"
+        if k == "cat" and r.random() < 0.45:
+            if x is None:
+                x = ["col", self.pick(self.by_kind(cols, "cat"))]
+            if self._prist_name(x, leaf) != "k":
+                return None
+            self.feat("cat:kwargs")
+            w = r.random()
+            if w < 0.3:
+                cats = self.pick([["r", "q", "p"], ["p", "q"], ["q", "zz", "p", "r"]])
+                return ["catm", "set_categories", x, [cats], {"ordered": True}], "cat", "cat"
+            if w < 0.55:
+                return ["catm", "reorder_categories", x, [["unused", "r", "q", "p"]], {"ordered": True}], "cat", "cat"
+            if w < 0.8:
+                return ["catm", "rename_categories", x, [{"p": "P", "unused": "U"}], {}], "cat", "cat"
+            return ["catm", "remove_categories", x, [self.pick([["p"], ["unused"], ["q", "r"]])], {}], "cat", "cat"
+        return None
+
+    # ---- extended frame-level steps
+    def s_x_mapna(self):
+        """a mapped column (Series.map with na_action on missing values) assigned / used as a filter / taken as a series"""
+        r = self.r
+        got = self.mapna_expr(self.cols)
+        if got is None:
+            return None
+        e, kind = got
+        now = len(self.schemas) - 1
+        w = r.random()
+        if w < 0.6:
+            name = self.fresh() if r.random() < 0.7 else self.pick(list(self.cols))
+            mode = self.pick(["lambda", "series"])
+            cols = dict(self.cols)
+            cols[name] = kind
+            self.prist.discard(name)
+            return self._commit({"op": "assign", "items": [[name, e, mode, now]]}, cols, "assign:map-na:" + mode)
+        if w < 0.8:
+            if kind == "mstr":
+                pred = ["un", self.pick(["isna", "notna"]), e]
+            elif kind == "str":
+                pred = ["cmp", self.pick(["==", "!="]), e, ["lit", self.pick(["<nan>", "<<NA>>", "<1.0>"])]]
+            else:
+                pred = ["un", self.pick(["isna", "notna"]), e] if r.random() < 0.6 else ["cmp", ">", e, ["lit", 3.5]]
+            how = "getitem" if r.random() < 0.75 else "loc"
+            return self._commit({"op": "filter", "pred": pred, "at": now, "how": how}, dict(self.cols), "filter:map-na",
+                                filt=True)
+        return self._commit_series({"op": "fseries", "expr": e}, "series:map-na", kind)
+
+    @staticmethod
+    def mapping_keys(st):
+        """column names that key a per-column mapping argument of step `st` (astype / fillna / round / replace /
+        isin with a dict, rename(columns=dict)), else None"""
+        op = st.get("op")
+        if op == "astype" and isinstance(st.get("spec"), dict):
+            return list(st["spec"])
+        if op == "fillna" and isinstance(st.get("value"), dict):
+            return list(st["value"])
+        if op == "round" and isinstance(st.get("decimals"), dict):
+            return list(st["decimals"])
+        if op == "isin" and "values_dict" in st:
+            return list(st["values_dict"])
+        if op == "replace" and isinstance(st.get("to"), dict):
+            return list(st["to"].get("nested") or st["to"].get("percol") or {})
+        if op == "rename" and "columns" in st:
+            return list(st["columns"].values())
+        return None
+
+    def s_x_after_mapping(self):
+        """after a step whose argument is a mapping keyed by column names: select ONE column whose name contains such a
+        key (or is contained in one) - "a" / "ab" / "abc" from the name pool"""
+        keys = self.mapping_keys(self.steps[-1])
+        if not keys:
+            return None
+        cands = [c for c in self.cols if self.cols[c] != "obj" and
+                 any(k != c and (str(k) in c or c in str(k)) for k in keys)]
+        if not cands:
+            return None
+        c = self.pick(cands)
+        self.feat("names:column-related-to-mapping-key-selected")
+        if self.r.random() < 0.7:
+            return self._commit_series({"op": "getcol", "col": c, "attr": False}, "project:single", self.cols[c],
+                                       c if c in self.prist else None, c)
+        return self._commit({"op": "project", "cols": [c]}, {c: self.cols[c]}, "project:list")
+
+    def s_x_series_kw(self):
+        """a new column from one of the series-level keyword variants (round / replace / fillna(series) / clip with
+        series bounds or axis / arithmetic method with fill_value / apply with args and kwargs / str keyword arguments)"""
+        r = self.r
+        now = len(self.schemas) - 1
+        got = None
+        w = r.random()
+        if w < 0.1:
+            if any(self.orig.get(c, c) == "k" and c in self.prist for c in self.by_kind(self.cols, "cat")):
+                for _ in range(6):
+                    g3 = self.x_any(self.cols, None, "cat")
+                    if g3 is not None and g3[2] == "cat":
+                        got = g3[0], g3[1]
+                        break
+        elif w < 0.42:
+            cs = self.by_kind(self.cols, "str")
+            if cs:
+                x = ["col", self.pick(cs)]
+                if r.random() < 0.6:
+                    got = self.x_string(self.cols, 0, None, x)
+                else:
+                    src = self._missing_src(self.cols, None, kinds=("str",))
+                    self.feat("str:kwargs")
+                    self.feat("str:na=")
+                    meth = self.pick(["contains", "startswith", "endswith"])
+                    got = ["str", meth, src[0], [self.pick(["x", "y", "w"])], {"na": bool(r.getrandbits(1))}], "bool"
+        else:
+            sub = lambda: self.num(self.cols, 1)  # noqa: E731
+            for _ in range(4):
+                got = self.x_num(self.cols, 1, None, sub)
+                if got is not None:
+                    break
+        if got is None:
+            return None
+        e, kind = got
+        name = self.fresh() if r.random() < 0.7 else self.pick(list(self.cols))
+        mode = self.pick(["lambda", "series"])
+        cols = dict(self.cols)
+        cols[name] = kind
+        self.prist.discard(name)
+        return self._commit({"op": "assign", "items": [[name, e, mode, now]]}, cols, "assign:kw-variant:" + mode)
+
+    def s_x_frame_map(self):
+        """DataFrame.map(func, na_action=...) on a typed sub-frame that holds missing values"""
+        r = self.r
+        miss = self.by_kind(self.cols, "float")
+        if not miss:
+            return None
+        fn = self.pick(["f_fmt", "f_fmt", "f_slen", "f_inc"])
+        extra_kinds = ("int", "float") if fn == "f_inc" else ("int", "float", "bool", "str")
+        sel = [self.pick(miss)]
+        extra = [c for c in self.by_kind(self.cols, *extra_kinds) if c not in sel]
+        sel += r.sample(extra, r.randint(0, min(2, len(extra))))
+        r.shuffle(sel)
+        na = self.pick([None, "ignore", "ignore"])
+        if fn == "f_fmt":
+            out = {c: "mstr" for c in sel}
+            meta = {c: "str" for c in sel}
+        elif fn == "f_slen":
+            out = {c: "float" for c in sel}
+            meta = {c: "float64" for c in sel}
+        else:
+            out = {c: self.cols[c] for c in sel}
+            meta = {c: DTYPE_OF[self.cols[c]] for c in sel}
+        self._narrow(sel)
+        self.uses_meta = True
+        self.prist = set()
+        self.feat("frame-map:na_action=ignore" if na == "ignore" else "frame-map:on-missing-values")
+        if na == "ignore" and fn != "f_inc":
+            self.feat("frame-map:na_action=ignore:nan-to-value-function")
+        st = {"op": "frame_map", "func": fn, "na_action": na, "meta": meta, "meta_form": self.pick(["dict", "frame"])}
+        return self._commit(st, out, "map-frame:%s" % ("na_action=ignore" if na else "na_action=None"))
+
+    def s_x_round(self):
+        r = self.r
+        sel = self.numcols()
+        if not sel or not any(self.cols[c] == "float" for c in sel):
+            return None
+        out = {c: self.cols[c] for c in sel}
+        if r.random() < 0.5:
+            dec = self.pick([0, 1, 1, -1])
+            form = "int"
+        else:
+            dec = {c: self.pick([0, 1, -1]) for c in r.sample(sel, r.randint(1, len(sel)))}
+            form = "dict"
+        self._narrow(sel)
+        self.feat("round:frame")
+        return self._commit({"op": "round", "decimals": dec}, out, "round:frame:" + form)
+
+    def s_x_replace(self):
+        r = self.r
+        if r.random() < 0.25:
+            strs = self.by_kind(self.cols, "str")
+            if not strs:
+                return None
+            sel = r.sample(strs, r.randint(1, min(2, len(strs))))
+            out = {c: "str" for c in sel}
+            self._narrow(sel)
+            for c in sel:
+                self.prist.discard(c)
+            self.feat("replace:frame")
+            if r.random() < 0.5:
+                st = {"op": "replace", "to": self.pick(["x", "y", "xy"]), "value": "R", "regex": False}
+                return self._commit(st, out, "replace:frame:str")
+            st = {"op": "replace", "to": self.pick(["^x", "y$", "[xw]"]), "value": "R", "regex": True}
+            return self._commit(st, out, "replace:frame:regex")
+        sel = self.numcols()
+        if not sel:
+            return None
+        out = {c: self.cols[c] for c in sel}
+        keys, vals = [0, 1, 2, 3, -1], [100, -7, 50]
+        form = self.pick(["scalar", "list", "nested", "dict-value"])
+        if form == "scalar":
+            st = {"op": "replace", "to": self.pick(keys), "value": self.pick(vals), "regex": False}
+        elif form == "list":
+            st = {"op": "replace", "to": r.sample(keys, 2), "value": self.pick(vals), "regex": False}
+        elif form == "nested":
+            sub = r.sample(sel, r.randint(1, len(sel)))
+            st = {"op": "replace", "to": {"nested": {c: [[self.pick(keys), self.pick(vals)]] for c in sub}}, "regex": False}
+        else:
+            sub = r.sample(sel, r.randint(1, len(sel)))
+            st = {"op": "replace", "to": {"percol": {c: self.pick(keys) for c in sub}}, "value": self.pick(vals), "regex": False}
+        self._narrow(sel)
+        for c in sel:
+            self.prist.discard(c)
+        self.feat("replace:frame")
+        return self._commit(st, out, "replace:frame:" + form)
+
+    def s_x_abs(self):
+        sel = self.numcols()
+        if not sel:
+            return None
+        out = {c: self.cols[c] for c in sel}
+        self._narrow(sel)
+        for c in sel:
+            self.prist.discard(c)
+        self.feat("abs:frame")
+        return self._commit({"op": "abs"}, out, "abs:frame")
+
+    def s_x_fillna(self):
+        r = self.r
+        sel = self.numcols(kinds=("int", "float"))
+        if not sel or not any(self.cols[c] == "float" for c in sel):
+            return None
+        out = {c: self.cols[c] for c in sel}
+        if r.random() < 0.55 or len(sel) < 2:
+            self._narrow(sel)
+            self.feat("fillna:axis")
+            st = {"op": "fillna", "value": r.choice([0, 7, -1.5]), "axis": self.pick([1, "columns", "index", 0])}
+            return self._commit(st, out, "fillna:axis")
+        # value = a frame: every column is filled from another column of the same frame
+        perm = list(sel)
+        while perm == list(sel):
+            r.shuffle(perm)
+        self._narrow(sel)
+        self.feat("fillna:frame-value")
+        return self._commit({"op": "fillna", "value_from": dict(zip(sel, perm))}, out, "fillna:frame-value")
+
+    def s_x_clip(self):
+        r = self.r
+        w = r.random()
+        now = len(self.schemas) - 1
+        if w < 0.4:     # scalar bounds with axis=
+            sel = self.numcols(kinds=("int", "float"))
+            if not sel:
+                return None
+            lo, hi = sorted([r.choice([-2, -1, 0]), r.choice([1, 2, 3])])
+            v = r.random()
+            lo_, hi_ = (lo, hi) if v < 0.5 else ((lo, None) if v < 0.75 else (None, hi))
+            out = {c: self.cols[c] for c in sel}
+            self._narrow(sel)
+            self.feat("clip:axis")
+            st = {"op": "clip", "lower": lo_, "upper": hi_, "axis": self.pick([0, 1, "index", "columns"])}
+            return self._commit(st, out, "clip:frame:axis")
+        if w < 0.7:     # one bound per column (list), axis=1; float columns only (an integer column of another width,
+            # e.g. the int32 of a .dt field, is upcast by pandas depending on the values: empty pieces keep the dtype)
+            sel = self.numcols(kinds=("float",))
+            if not sel:
+                return None
+            out = {c: self.cols[c] for c in sel}
+            self._narrow(sel)
+            self.feat("clip:list-bounds-axis1")
+            which = self.pick(["lower", "upper"])
+            st = {"op": "clip", "lower": None, "upper": None, "axis": self.pick([1, "columns"])}
+            st[which] = [r.choice([-1, 0, 1, 2]) for _ in sel]
+            return self._commit(st, out, "clip:frame:list-bounds")
+        fl = self.by_kind(self.cols, "float")
+        if not fl:
+            return None
+        sel = r.sample(fl, r.randint(1, min(2, len(fl))))
+        nums = self.by_kind(self.cols, "int", "float")
+        b = ["col", self.pick(nums)]
+        v = r.random()
+        st = {"op": "clip", "lower": None, "upper": None, "axis": self.pick([0, "index"]), "at": now}
+        if v < 0.4:
+            st["lower_expr"] = b
+        elif v < 0.7:
+            st["upper_expr"] = b
+        else:
+            st["lower_expr"] = ["bin", "-", b, ["lit", 1]]
+            st["upper_expr"] = ["bin", "+", b, ["lit", 1]]
+        out = {c: "float" for c in sel}
+        self._narrow(sel)
+        self.feat("clip:series-bounds")
+        return self._commit(st, out, "clip:frame:series-bounds")
+
+    def s_x_rename(self):
+        how = self.pick(["upper", "suffix", "title"])
+        fn = _RENAMERS[how]
+        new = [fn(c) for c in self.cols]
+        if len(set(new)) != len(new) or new == list(self.cols):
+            return None
+        cols = {fn(c): k for c, k in self.cols.items()}
+        self.prist = {c for c in self.prist if fn(c) == c}
+        self.feat("rename:callable")
+        return self._commit({"op": "rename", "callable": how}, cols, "rename:callable")
+
+    def s_x_loc(self):
+        r = self.r
+        names = list(self.cols)
+        if len(names) < 2:
+            return None
+        now = len(self.schemas) - 1
+        w = r.random()
+        self.feat("loc:columns")
+        if w < 0.3:
+            sel = r.sample(names, r.randint(1, min(len(names), 4)))
+            return self._commit({"op": "locsel", "cols": sel}, {c: self.cols[c] for c in sel}, "loc:cols")
+        if w < 0.45:
+            c = self.pick(names)
+            if self.cols[c] == "obj":
+                return None
+            return self._commit_series({"op": "locsel", "cols": c}, "loc:col", self.cols[c], c if c in self.prist else None, c)
+        if w < 0.6:
+            if len(set(names)) != len(names):
+                return None
+            i, j = sorted(r.sample(range(len(names)), 2))
+            sel = names[i:j + 1]
+            return self._commit({"op": "locsel", "slice": [names[i], names[j]]}, {c: self.cols[c] for c in sel}, "loc:col-slice")
+        pred, _ = self.boolean(self.cols)
+        if w < 0.85:
+            sel = r.sample(names, r.randint(1, min(len(names), 4)))
+            return self._commit({"op": "locsel", "pred": pred, "at": now, "cols": sel}, {c: self.cols[c] for c in sel},
+                                "loc:mask+cols", filt=True)
+        c = self.pick(names)
+        if self.cols[c] == "obj":
+            return None
+        return self._commit_series({"op": "locsel", "pred": pred, "at": now, "cols": c}, "loc:mask+col", self.cols[c],
+                                   c if c in self.prist else None, c, filt=True)
+
+    def s_x_arith(self):
+        r = self.r
+        sel = self.numcols()
+        if not sel:
+            return None
+        op = self.pick(["+", "-", "*", "/", "//", "%"])
+        cols = {c: self.cols[c] for c in sel}
+        now = len(self.schemas) - 1
+        w = r.random()
+        if w < 0.3:      # scalar with fill_value=
+            if not any(k == "float" for k in cols.values()):
+                return None
+            v = r.choice([1, 2, 3, 0.5, -2])
+            fv = r.choice([1, 2, 2.5])
+            kv, kf = ("int" if isinstance(v, int) else "float"), ("int" if isinstance(fv, int) else "float")
+            out = {c: (self._numkind(op, self._numkind(op, k, kv), kf) if k == "float" else self._numkind(op, k, kv))
+                   for c, k in cols.items()}
+            st = {"op": "frame_arith", "binop": op, "rhs": {"kind": "scalar", "v": v}, "fill_value": fv,
+                  "style": self.pick(["method", "rmethod"])}
+            self._narrow(sel)
+            self.feat("arith:frame-scalar-fill_value")
+            return self._commit(st, out, "frame-arith:scalar:fill_value")
+        if w < 0.55:     # frame (same rows, some of the columns) with fill_value=
+            sel2 = r.sample(sel, r.randint(1, len(sel)))
+            r.shuffle(sel2)
+            if not any(cols[c] == "float" for c in sel) and set(sel2) == set(sel):
+                return None
+            out = {}
+            for c in sorted(sel) if set(sel2) != set(sel) else sel:
+                out[c] = self._numkind(op, cols[c], cols[c]) if c in sel2 and cols[c] != "float" else "float"
+            st = {"op": "frame_arith", "binop": op, "rhs": {"kind": "frame", "cols": sel2}, "fill_value": r.choice([1, 2]),
+                  "style": "method"}
+            self._narrow(sel)
+            self.feat("arith:frame-frame-fill_value")
+            return self._commit(st, out, "frame-arith:frame:fill_value")
+        if w < 0.8:      # one scalar per column: pandas Series / list with axis=1 | "columns"
+            if op in ("/", "//", "%"):
+                vals = [r.choice([1, 2, 4, 0.5]) for _ in sel]
+            else:
+                vals = [r.choice([0, 1, 2, 3, 0.5, -1]) for _ in sel]
+            ax = self.pick([1, "columns"])
+            if r.random() < 0.6:
+                data = [[c, v] for c, v in zip(sel, vals)]
+                v = r.random()
+                if v < 0.3:
+                    r.shuffle(data)
+                elif v < 0.5:
+                    data.append(["qq", 2])
+                elif v < 0.65 and len(data) > 1:
+                    data.pop()
+                rhs = {"kind": "pdseries", "data": data}
+                keys = [c for c, _ in data]
+                names = sel if keys == list(sel) else sorted(set(sel) | set(keys))
+                out = {}
+                for c in names:
+                    if c in cols and c in keys:
+                        lit = dict(data)[c]
+                        out[c] = self._numkind(op, cols[c], "int" if isinstance(lit, int) else "float")
+                    else:
+                        out[c] = "float"
+            else:
+                rhs = {"kind": "list", "v": vals}
+                out = {c: self._numkind(op, cols[c], "int" if isinstance(v, int) else "float") for c, v in zip(sel, vals)}
+            st = {"op": "frame_arith", "binop": op, "rhs": rhs, "axis": ax, "style": "method"}
+            self._narrow(sel)
+            self.feat("arith:frame-axis-columns")
+            return self._commit(st, out, "frame-arith:%s:axis-columns" % rhs["kind"])
+        e, k = self.num(self.cols, 1)
+        out = {c: self._numkind(op, kk, k) for c, kk in cols.items()}
+        st = {"op": "frame_arith", "binop": op, "rhs": {"kind": "series", "expr": e, "at": now}, "axis": "index",
+              "style": "method"}
+        self._narrow(sel)
+        self.feat("arith:frame-axis-index")
+        return self._commit(st, out, "frame-arith:series:axis-index")
+
+    def s_x_cmp(self):
+        r = self.r
+        sel = self.numcols()
+        if not sel:
+            return None
+        op = self.pick(list(_CMP))
+        now = len(self.schemas) - 1
+        if r.random() < 0.5:
+            e, k = self.num(self.cols, 1)
+            rhs, ax = {"kind": "series", "expr": e, "at": now}, "index"
+        else:
+            rhs, ax = {"kind": "list", "v": [r.choice([0, 1, 2, -1, 0.5]) for _ in sel]}, self.pick([1, "columns"])
+        self._narrow(sel)
+        self.feat("cmp:frame-axis")
+        st = {"op": "frame_cmp", "cmpop": op, "rhs": rhs, "axis": ax, "style": "method"}
+        return self._commit(st, {c: "bool" for c in sel}, "frame-cmp:%s:axis-%s" % (rhs["kind"], "index" if ax == "index" else "columns"))
+
+    def s_x_isin(self):
+        r = self.r
+        names = [c for c in self.cols if self.cols[c] in ("int", "float", "str")]
+        if not names:
+            return None
+        sel = r.sample(names, r.randint(1, min(3, len(names))))
+        vd = {}
+        for c in r.sample(sel, r.randint(1, len(sel))):
+            pool = ["x", "y", "xy", "w"] if self.cols[c] == "str" else [0, 1, 2, 3, -1.0, 2.0]
+            vd[c] = r.sample(pool, r.randint(1, 3))
+        if r.random() < 0.3:
+            vd["zz_absent"] = [1]
+        self._narrow(sel)
+        self.feat("isin:dict")
+        return self._commit({"op": "isin", "values_dict": vd}, {c: "bool" for c in sel}, "isin:frame:dict")
+
+    def s_x_apply_rows(self):
+        r = self.r
+        nums = self.by_kind(self.cols, "int", "float")
+        if len(nums) < 2:
+            return None
+        x, y = r.sample(nums, 2)
+        out = self._numkind("+", self.cols[x], self.cols[y])
+        if out == "int" and all(k in ("int", "float", "bool") for k in self.cols.values()) and "float" in self.cols.values():
+            out = "float"
+        self.uses_meta = True
+        self.feat("apply:axis1-kwargs")
+        st = {"op": "apply_rows", "func": "r_addk", "args": [x, y], "kwargs": {"k": r.choice([1, 2, 10])}, "meta": DTYPE_OF[out]}
+        return self._commit_series(st, "apply:axis1", out)
 
     # ---- series-level steps
     def op_series(self):
@@ -999,8 +1821,12 @@ def gen_pipeline(rng, ncols_info=None, nops=None, allow_other=True):
         else:
             g.op_series()
     fk = dict(g.cols) if g.state == "frame" else {"": g.skind}
-    return {"steps": g.steps, "classes": g.classes, "uses_meta": g.uses_meta, "uses_other": g.uses_other,
-            "final": g.state, "final_kinds": fk, "nops": n}
+    out = {"steps": g.steps, "classes": g.classes, "uses_meta": g.uses_meta, "uses_other": g.uses_other,
+           "final": g.state, "final_kinds": fk, "nops": n}
+    if g.ext:
+        out["features"] = sorted(g.features)
+        out["unordered"] = bool(g.unordered)
+    return out
 
 
 # --------------------------------------------------------------------------- evaluation
@@ -1028,7 +1854,7 @@ def _meta_kw(env, x, dtype, name=False):
 def _user_dtype(env, x, how, declared):
     """dtype a user would declare: dtype-preserving functions (f_inc, f_sq) keep the dtype the lazy collection reports
     (the generator's static guess can be off after value-dependent upcasts such as where() on ints)"""
-    if env.is_dask and how.get("func") in ("f_inc", "f_sq") and str(x.dtype) in ("int64", "float64"):
+    if env.is_dask and how.get("func") in ("f_inc", "f_sq", "f_addk") and str(x.dtype) in ("int64", "float64"):
         return str(x.dtype)
     return declared
 
@@ -1036,7 +1862,7 @@ def _user_dtype(env, x, how, declared):
 def _row_dtype(env, cur, st):
     """dtype a user would declare for r_add: rows of an all-numeric frame are upcast to the common dtype, otherwise
     the two cells are added as Python scalars (decided from the dtypes the lazy collection reports)"""
-    if not env.is_dask or st["func"] != "r_add":
+    if not env.is_dask or st["func"] not in ("r_add", "r_addk"):
         return st["meta"]
     try:
         dts = cur.dtypes
@@ -1048,6 +1874,11 @@ def _row_dtype(env, cur, st):
     except Exception:  # noqa: BLE001
         pass
     return st["meta"]
+
+
+def _nan_key(k):
+    """None stands for the NaN key / value in JSON descriptions"""
+    return np.nan if k is None else k
 
 
 def ev(e, df, env):
@@ -1087,16 +1918,37 @@ def ev(e, df, env):
     if t == "fillna":
         return ev(e[1], df, env).fillna(ev(e[2], df, env))
     if t == "isin":
-        return ev(e[1], df, env).isin(list(e[2]))
+        vals = list(e[2])
+        form = e[3] if len(e) > 3 else "list"
+        if form == "set":
+            vals = set(vals)
+        elif form == "ndarray":
+            vals = np.array(vals)
+        elif form == "series":
+            vals = pd.Series(vals)
+        return ev(e[1], df, env).isin(vals)
     if t == "clip":
         kw = {}
         if e[2] is not None:
-            kw["lower"] = e[2]
+            kw["lower"] = ev(e[2], df, env) if isinstance(e[2], list) else e[2]
         if e[3] is not None:
-            kw["upper"] = e[3]
+            kw["upper"] = ev(e[3], df, env) if isinstance(e[3], list) else e[3]
+        if len(e) > 4 and e[4] is not None:
+            kw["axis"] = e[4]
         return ev(e[1], df, env).clip(**kw)
     if t == "between":
-        return ev(e[1], df, env).between(e[2], e[3], inclusive=e[4])
+        lo = ev(e[2], df, env) if isinstance(e[2], list) else e[2]
+        hi = ev(e[3], df, env) if isinstance(e[3], list) else e[3]
+        return ev(e[1], df, env).between(lo, hi, inclusive=e[4])
+    if t == "round":
+        return ev(e[1], df, env).round(e[2])
+    if t == "replace":
+        x = ev(e[1], df, env)
+        to = e[2]
+        if isinstance(to, dict):
+            return x.replace({_nan_key(k): v for k, v in to["dict"]}, regex=e[4])
+        to = [_nan_key(k) for k in to] if isinstance(to, list) else _nan_key(to)
+        return x.replace(to, e[3], regex=e[4])
     if t in ("where", "mask"):
         x = ev(e[1], df, env)
         c = ev(e[2], df, env)
@@ -1105,16 +1957,35 @@ def ev(e, df, env):
         return getattr(x, t)(c, ev(e[3], df, env))
     if t == "map":
         x = ev(e[1], df, env)
-        arg = dict((k, v) for k, v in e[2]["dict"]) if "dict" in e[2] else FUNCS[e[2]["func"]]
-        return x.map(arg, **_meta_kw(env, x, _user_dtype(env, x, e[2], e[3])))
+        how = e[2]
+        if "dict" in how:
+            arg = dict((_nan_key(k), v) for k, v in how["dict"])
+        elif "series" in how:
+            arg = pd.Series([v for _, v in how["series"]], index=[_nan_key(k) for k, _ in how["series"]])
+            if env.is_dask and how.get("dask"):
+                import dask.dataframe as dd
+
+                arg = dd.from_pandas(arg, npartitions=1)      # a one-partition dask Series is broadcast to every partition
+        else:
+            arg = FUNCS[how["func"]]
+        kw = _meta_kw(env, x, _user_dtype(env, x, e[2], e[3]))
+        if len(e) > 4:
+            kw["na_action"] = e[4]
+        return x.map(arg, **kw)
     if t == "apply":
         x = ev(e[1], df, env)
-        return x.apply(FUNCS[e[2]["func"]], **_meta_kw(env, x, _user_dtype(env, x, e[2], e[3])))
+        kw = _meta_kw(env, x, _user_dtype(env, x, e[2], e[3]))
+        if len(e) > 4:
+            kw["args"] = tuple(e[4])
+            kw.update(e[5])
+        return x.apply(FUNCS[e[2]["func"]], **kw)
     if t == "str":
         x = ev(e[2], df, env)
         return getattr(x.str, e[1])(*e[3], **e[4])
     if t == "strcat":
         x = ev(e[1], df, env)
+        if len(e) > 4:
+            return x.str.cat(ev(e[2], df, env), sep=e[3], na_rep=e[4])
         return x.str.cat(ev(e[2], df, env), sep=e[3])
     if t == "dt":
         return getattr(ev(e[2], df, env).dt, e[1])
@@ -1129,7 +2000,7 @@ def ev(e, df, env):
                 return getattr(x.cat, e[1])()
             x.cat       # pandas has no such method: identity, but only for categorical data
             return x
-        return getattr(x.cat, e[1])(*e[3])
+        return getattr(x.cat, e[1])(*e[3], **(e[4] if len(e) > 4 else {}))
     if t == "rename":
         return ev(e[1], df, env).rename(e[2])
     raise ValueError("unknown expression node %r" % (t,))
@@ -1169,8 +2040,15 @@ def apply(description, frame, is_dask, other=None, upto=None, full_meta=False):
         elif op in ("frame_arith", "frame_cmp"):
             table, names, o = (_BIN, _ANAMES, st["binop"]) if op == "frame_arith" else (_CMP, _CNAMES, st["cmpop"])
             rhs = st["rhs"]
+            kw = {"fill_value": st["fill_value"]} if st.get("fill_value") is not None else {}
             if rhs["kind"] == "series":
-                cur = getattr(cur, names[o])(ev(rhs["expr"], states[rhs["at"]], env), axis=0)
+                cur = getattr(cur, names[o])(ev(rhs["expr"], states[rhs["at"]], env), axis=st.get("axis", 0))
+            elif rhs["kind"] in ("pdseries", "list"):
+                y = pd.Series(dict((c, v) for c, v in rhs["data"])) if rhs["kind"] == "pdseries" else list(rhs["v"])
+                cur = getattr(cur, names[o])(y, axis=st["axis"])
+            elif kw:
+                y = rhs["v"] if rhs["kind"] == "scalar" else cur[list(rhs["cols"])]
+                cur = getattr(cur, ("r" + names[o]) if st["style"] == "rmethod" else names[o])(y, **kw)
             else:
                 y = rhs["v"] if rhs["kind"] == "scalar" else cur[list(rhs["cols"])]
                 style = st["style"]
@@ -1183,7 +2061,14 @@ def apply(description, frame, is_dask, other=None, upto=None, full_meta=False):
         elif op == "astype":
             cur = cur.astype(st["spec"])
         elif op == "fillna":
-            cur = cur.fillna(st["value"])
+            if "value_from" in st:      # value = a frame: column c is filled from column value_from[c] of the same frame
+                src = st["value_from"]
+                val = cur[[src[c] for c in cur.columns]].rename(columns={v: k for k, v in src.items()})
+                cur = cur.fillna(val)
+            elif "axis" in st:
+                cur = cur.fillna(st["value"], axis=st["axis"])
+            else:
+                cur = cur.fillna(st["value"])
         elif op == "where":
             c = st["cond"]
             cond = _CMP[c["op"]](cur, c["v"])
@@ -1191,19 +2076,51 @@ def apply(description, frame, is_dask, other=None, upto=None, full_meta=False):
             args = () if o["kind"] == "none" else ((o["v"],) if o["kind"] == "scalar" else (cur * o["v"],))
             cur = getattr(cur, st["which"])(cond, *args)
         elif op == "isin":
-            cur = cur.isin(list(st["values"]))
+            cur = cur.isin({c: list(v) for c, v in st["values_dict"].items()} if "values_dict" in st else list(st["values"]))
         elif op == "clip":
             kw = {}
             if st["lower"] is not None:
                 kw["lower"] = st["lower"]
             if st["upper"] is not None:
                 kw["upper"] = st["upper"]
+            if st.get("lower_expr") is not None:
+                kw["lower"] = ev(st["lower_expr"], states[st["at"]], env)
+            if st.get("upper_expr") is not None:
+                kw["upper"] = ev(st["upper_expr"], states[st["at"]], env)
+            if st.get("axis") is not None:
+                kw["axis"] = st["axis"]
             cur = cur.clip(**kw)
         elif op == "apply_rows":
-            cur = cur.apply(FUNCS[st["func"]], axis=1, args=tuple(st["args"]),
+            cur = cur.apply(FUNCS[st["func"]], axis=1, args=tuple(st["args"]), **st.get("kwargs", {}),
                             **_meta_kw(env, cur, _row_dtype(env, cur, st), name=None))
         elif op == "rename":
-            cur = cur.rename(columns=dict(st["columns"]))
+            cur = cur.rename(columns=_RENAMERS[st["callable"]] if "callable" in st else dict(st["columns"]))
+        elif op == "frame_map":
+            kw = {}
+            if is_dask:
+                meta = {c: st["meta"][str(c)] for c in cur.columns}
+                if st.get("meta_form") == "frame" or full_meta:
+                    meta = pd.DataFrame({c: pd.Series([], dtype=dt) for c, dt in meta.items()}, index=cur._meta.index[:0])
+                kw["meta"] = meta
+            cur = cur.map(FUNCS[st["func"]], na_action=st["na_action"], **kw)
+        elif op == "round":
+            cur = cur.round(st["decimals"])
+        elif op == "abs":
+            cur = cur.abs()
+        elif op == "replace":
+            to = st["to"]
+            if isinstance(to, dict) and "nested" in to:
+                cur = cur.replace({c: {k: v for k, v in pairs} for c, pairs in to["nested"].items()})
+            elif isinstance(to, dict):
+                cur = cur.replace(dict(to["percol"]), st["value"])
+            else:
+                cur = cur.replace(to, st["value"], regex=st["regex"])
+        elif op == "fseries":
+            cur = ev(st["expr"], cur, env)
+        elif op == "locsel":
+            rows = ev(st["pred"], states[st["at"]], env) if "pred" in st else slice(None)
+            cols = slice(st["slice"][0], st["slice"][1]) if "slice" in st else st["cols"]
+            cur = cur.loc[rows, list(cols) if isinstance(cols, list) else cols]
         elif op == "series":
             env.self_ = cur
             cur = ev(st["expr"], None, env)
